@@ -129,6 +129,8 @@ func ParamAtoms() []ParamAtom {
 		add(in+".string.allowEmpty.optional", in, J{"type": "string", "allowEmptyValue": true}, false, nil)
 		add(in+".string.minLength2.allowEmpty.required", in, J{"type": "string", "minLength": n("2"), "allowEmptyValue": true}, true, nil)
 		add(in+".integer.allowEmpty.optional", in, J{"type": "integer", "allowEmptyValue": true}, false, nil)
+		add(in+".array.csv.string.allowEmpty.required", in, J{"type": "array", "items": J{"type": "string"}, "allowEmptyValue": true}, true, nil)
+		add(in+".array.multi.integer.allowEmpty.optional", in, J{"type": "array", "collectionFormat": "multi", "items": J{"type": "integer"}, "allowEmptyValue": true}, false, nil)
 	}
 	// arrays
 	items := []named{
@@ -193,6 +195,11 @@ func ParamAtoms() []ParamAtom {
 			add(in+".array.pipes-of-csv.integer.items-range.required", in, J{"type": "array", "collectionFormat": "pipes", "items": J{"type": "array", "collectionFormat": "csv", "maxItems": n("2"), "items": J{"type": "integer", "minimum": n("1"), "maximum": n("9")}}}, true, nil)
 			add(in+".array.csv-of-pipes.string.optional", in, J{"type": "array", "collectionFormat": "csv", "items": J{"type": "array", "collectionFormat": "pipes", "items": J{"type": "string", "minLength": n("2")}}}, false, nil)
 			add(in+".array.pipes-of-csv-of-ssv.integer.required", in, J{"type": "array", "collectionFormat": "pipes", "items": J{"type": "array", "collectionFormat": "csv", "items": J{"type": "array", "collectionFormat": "ssv", "items": J{"type": "integer", "maximum": n("9")}}}}, true, nil)
+		}
+		if in == "query" || in == "header" {
+			add(in+".array.pipes-of-csv.integer.default", in, J{"type": "array", "collectionFormat": "pipes", "items": J{"type": "array", "collectionFormat": "csv", "items": J{"type": "integer", "format": "int32"}},
+				"default": []any{[]any{n("1"), n("2")}, []any{n("3")}}}, false, nil)
+			add(in+".array.csv-of-pipes.string.default", in, J{"type": "array", "items": J{"type": "array", "collectionFormat": "pipes", "items": J{"type": "string"}}, "default": []any{[]any{"a", "b"}, []any{"c"}}}, false, nil)
 		}
 		if in == "query" {
 			add("query.array.multi-of-csv.integer.required", in, J{"type": "array", "collectionFormat": "multi", "items": J{"type": "array", "collectionFormat": "csv", "items": J{"type": "integer"}}}, true, nil)
